@@ -17,12 +17,24 @@ package templater
 //@   modifies github.com/go-task/task/v3/internal/templater.*
 // The extra variables of one expansion (for-loop ITEM/KEY, EXIT_CODE) are merged into a private clone of the
 // cached variable map, never into the cache itself: later expansions must not see them.
+//@ ghost var nTrav int scratch
+//@ ghost var nParse int scratch
 //@ func ReplaceWithExtra
 //@   modifies heap
 //@   preserves $RUNDATA
 //@   site maps.Clone#1 requires arg0 == cache.cacheMap                                                         [C02,C11,C14]
 //@   site maps.Copy#1 requires arg0 != cache.cacheMap                                                          [C02,C11,C14]
 //@   site maps.Copy#1 requires arg1 == extra     -- the extras (ITEM, KEY, EXIT_CODE) are laid OVER the variables: they win   [C02,C14]
+// C19: the template engine sees a text ONCE. Its output - which contains the values that were substituted (the
+// arguments after --, shell-quoted values) - is data: it is never parsed as a template again
+//@   init nTrav := 0
+//@   site deepcopy.TraverseStringsFunc#0 ghost nTrav := nTrav + 1
+//@   ensures nTrav <= 1                                                                                         [C19]
+//@ func ReplaceWithExtra$1
+//@   init nParse := 0
+//@   site (*Template).Parse#0 requires arg1 == v                                                                [C19]
+//@   site (*Template).Parse#0 ghost nParse := nParse + 1
+//@   ensures nParse <= 1                                                                                        [C19]
 //@ func ReplaceVar
 //@   trusted
 //@   modifies github.com/go-task/task/v3/internal/templater.*
